@@ -2,7 +2,9 @@
 import enccommon
 import gen
 import corpus
-from enccommon import model_line, canon_impl, ints
+from enccommon import canon_impl, ints
+model_line = enccommon.cert_model_line
+canon_model = enccommon.cert_canon_model
 
 PID = 'C01'
 RULE = ('structured byte strings (mode-shaped alphabets mixed at run boundaries, macro envelopes, capacity-boundary lengths) x '
@@ -24,6 +26,7 @@ def gen_cases(rng, tier, ctx):
 
 
 def check_impl(c, out, ctx, prof):
+    why_cert = enccommon.cert_verdict(c, ctx)
     if out.startswith('panic') or out.startswith('crash'):
         return None            # C11's business
     if out.startswith('err'):
@@ -35,7 +38,7 @@ def check_impl(c, out, ctx, prof):
         return 'decode_data(data codewords) = %s, encoded %s' % (parts[3][:80], want[:80])
     if parts[4] != want:
         return 'DataMatrix::decode(bitmap) = %s, encoded %s' % (parts[4][:80], want[:80])
-    return None
+    return why_cert
 
 
 def nontrivial(c, out):
